@@ -38,6 +38,16 @@ func binRun(specFile string) {
 		ctx, cancel := context.WithTimeout(context.Background(), 15*time.Second)
 		full := append([]string{"-basepath", spec.Root}, argv...)
 		cmd := exec.CommandContext(ctx, spec.Bin, full...)
+		if len(argv) == 2 && argv[0] == "!proc" {
+			// a process left working in a directory (the shell of `layercake shell`); it lives
+			// until the scenario ends
+			bg := exec.Command("sleep", "120")
+			bg.Dir = argv[1]
+			if bg.Start() == nil {
+				defer func() { bg.Process.Kill(); bg.Wait() }()
+			}
+			cmd = exec.CommandContext(ctx, "true")
+		}
 		if len(argv) == 3 && argv[0] == "!bind" {
 			// a mount the administrator makes by hand (real mount(2), inside the namespace)
 			cmd = exec.CommandContext(ctx, "mount", "--bind", argv[1], argv[2])
@@ -188,6 +198,8 @@ func genBinScenario(g *Gen) Case {
 			words = []string{"remove", pick()}
 			if g.Chance(1, 3) {
 				words = append(words, "-files")
+			} else if g.Chance(1, 3) {
+				words = append(words, "-force") // forcing is not asking for the files to go
 			}
 		case 2:
 			words = []string{"rename", pick(), g.Pick("ren1", "b0", "x y")}
@@ -230,6 +242,11 @@ func genBinScenario(g *Gen) Case {
 			argv = append(argv, g.Pick("-bogus", "--", "-", "-p=maybe", "extra"))
 		}
 		steps = append(steps, obj("argv", hxs(argv)))
+	}
+	if g.Chance(1, 3) {
+		// an empty string where a layer name belongs (an unset shell variable): refused, and
+		// the following argument must not slip into its place
+		steps = append(steps, obj("argv", hxs([]string{g.Pick("rebase", "rename", "add", "remove", "mount"), "", pick()})))
 	}
 	// the installation must still be listable at the end, whatever the names look like
 	steps = append([]interface{}{obj("argv", hxs([]string{"list"}))}, steps...)
@@ -305,6 +322,19 @@ func genBinManual(g *Gen, variant int) Case {
 	sub := []string{"!bind", VB + "/hostsrc/sub", mp + "/sub"}
 	stack := []string{"!bind", VB + "/hostsrc", mp}
 	steps := []interface{}{obj("argv", hxs([]string{"mount", "b0"}))}
+	if variant >= 4 {
+		// a process working inside the layer (in the build root, or only in its packages
+		// directory): remove, rename and rebase must refuse, with or without -force, and
+		// change nothing; umount must refuse exactly when the process is in the build root
+		where := VB + "/layers/b0/" + []string{"build/usr", "packages", "build", "generated"}[variant%4]
+		t.dir(where)
+		steps = []interface{}{obj("argv", hxs([]string{"!proc", where}))}
+		for _, argv := range [][]string{{"remove", "b0"}, {"-force", "remove", "b0"}, {"remove", "b0", "-force", "-files"},
+			{"rename", "-force", "b0", "b9"}, {"rebase", "b0", "-force"}, {"status", "b0"}, {"list"}} {
+			steps = append(steps, obj("argv", hxs(argv)))
+		}
+		return Case{"op": "binman", "cfg": defaultCfg(), "tree": t.list(), "steps": steps, "inuse": hx("b0")}
+	}
 	switch variant % 4 {
 	case 0:
 		steps = append(steps, obj("argv", hxs(sub)), obj("argv", hxs(stack)))
@@ -325,7 +355,7 @@ func init() {
 	ops["binovl"] = runBinScenario
 	ops["binman"] = runBinScenario
 	register("binman", func(g *Gen, tier string, emit func(Case)) {
-		for v := 0; v < 4; v++ {
+		for v := 0; v < 8; v++ {
 			emit(genBinManual(g, v))
 		}
 	})
